@@ -9,7 +9,7 @@
 #include <thread>
 #include <vector>
 namespace vsched {
-enum Strategy { RANDOM = 0, PCT = 1, SCRIPT = 2, RUNFIRST = 3, GUIDED = 4 };
+enum Strategy { RANDOM = 0, PCT = 1, SCRIPT = 2, RUNFIRST = 3, GUIDED = 4, STICKY = 5 };
 struct Config { int strategy = 0; uint64_t seed = 1; int pct_depth = 3; int pct_steps = 200; std::vector<int> script, waiter_script; unsigned guided_kinds = 0; bool spurious = false; bool post_points = false; long max_steps = 0; };
 struct Result { bool deadlock = false, diverged = false, livelock = false; size_t guided_consumed = 0; long steps = 0, decisions = 0, context_switches = 0;
                 std::vector<std::string> problems; std::vector<int> schedule, waiter_choices; std::string blocked_summary; };
